@@ -35,6 +35,54 @@ type PlanC12 struct {
 	// the other way (towards a sender that may already have closed: those sends may fail); a fault
 	// on its outgoing direction says nothing about what is still waiting for it on the incoming one
 	ReceiverTalks bool `json:"receiver_talks,omitempty"`
+	// TailStallMs > 0 (TLS, sender closing at once, otherwise fault-free): delivery pauses for that
+	// long TailBack bytes before the end of everything the sender writes, i.e. inside its closing
+	// TLS alert record or between its last envelope and that record (the byte count is taken from
+	// a fault-free rehearsal of the same transfer)
+	TailStallMs int `json:"tail_stall_ms,omitempty"`
+	TailBack    int `json:"tail_back,omitempty"`
+}
+
+// c12Rehearse runs the transfer once without faults and returns how many bytes the sending
+// end wrote in all (handshake, envelopes, closing alert).
+func c12Rehearse(w *World, p *PlanC12, envs []*Env, cliCfg, srvCfg *lime.TCPConfig) int64 {
+	pair, err := TCPPair(w, 7001, cliCfg, srvCfg, [2]FaultSpec{NoFaults(), NoFaults()})
+	if err != nil {
+		return -1
+	}
+	defer pair.Listener.Close()
+	if err := pair.UpgradeTLS(time.Minute); err != nil {
+		return -1
+	}
+	sender, receiver, dir := pair.Client, pair.Server, pair.Link.AB
+	if p.Reverse {
+		sender, receiver, dir = pair.Server, pair.Client, pair.Link.BA
+	}
+	done := NewFlag()
+	go func() {
+		defer done.Set()
+		for range envs {
+			ctx, cancel := context.WithTimeout(context.Background(), time.Minute)
+			_, err := receiver.Receive(ctx)
+			cancel()
+			if err != nil {
+				return
+			}
+		}
+	}()
+	for _, e := range envs {
+		ctx, cancel := context.WithTimeout(context.Background(), time.Minute)
+		err := SendEnv(ctx, sender, e)
+		cancel()
+		if err != nil {
+			return -1
+		}
+	}
+	sender.Close()
+	done.WaitFor(2 * time.Minute)
+	receiver.Close()
+	written, _, _ := dir.Counters()
+	return written
 }
 
 func genC12(t *simrt.Tape, tier string) interface{} {
@@ -93,6 +141,18 @@ func genC12(t *simrt.Tape, tier string) interface{} {
 	p.Trace = t.Draw(6) == 0
 	p.CloseAtOnce = t.Draw(3) == 0
 	p.ReceiverTalks = p.CloseAtOnce && t.Draw(2) == 0
+	if t.Draw(8) == 0 {
+		// template: TLS, a handful of small envelopes, the sender closes at once, and the very end of
+		// its stream is held back for longer than the receiver's read poll
+		p.TLS, p.CloseAtOnce, p.ReceiverTalks = true, true, false
+		p.Faults, p.Back = NoFaults(), NoFaults()
+		p.ReaderPauseMs, p.SendCtxMs, p.RecvCtxMs, p.SendGapMs, p.ReadLimit = 0, 0, 0, 0, 0
+		if len(p.Envs) > 4 {
+			p.Envs = p.Envs[:4]
+		}
+		p.TailStallMs = []int{5200, 7000, 12000}[t.Draw(3)]
+		p.TailBack = 1 + t.Draw(40)
+	}
 	if t.Draw(4) == 0 {
 		// a small read limit that no single envelope reaches, but the stream as a whole exceeds many times
 		big := 0
@@ -283,6 +343,16 @@ func runC12(w *World, pi interface{}) {
 			p.ReadLimit = maxLen + 64 // every envelope stays within the limit
 		}
 		cliCfg.ReadLimit, srvCfg.ReadLimit = int64(p.ReadLimit), int64(p.ReadLimit)
+	}
+	if p.TailStallMs > 0 && p.TLS && p.CloseAtOnce {
+		if total := c12Rehearse(w, p, envs, cliCfg, srvCfg); total > int64(p.TailBack) {
+			k := 0
+			if p.Reverse {
+				k = 1
+			}
+			faults[k].Stalls = append(faults[k].Stalls, StallS{AfterBytes: total - int64(p.TailBack), ForMs: p.TailStallMs})
+			w.Count("tail-stall-placed")
+		}
 	}
 	pair, err := TCPPair(w, 7000, cliCfg, srvCfg, faults)
 	if err != nil {
